@@ -9,8 +9,5 @@ import (
 )
 
 func rename(from, to string) sys.Errno {
-	if from == to {
-		return 0
-	}
 	return sys.UnwrapOSError(syscall.Rename(from, to))
 }
